@@ -193,9 +193,16 @@ def resolveOne (classes : Classes) (names : List Str) (ns : Option Str) (acc : L
     else match Names.findFull name names false with
       | .ok found =>
         -- a by-name reference is replaced by the full name found; a by-class reference keeps its
-        -- spelling and `tasks[input_task_name]` must exist under exactly that name
+        -- spelling and the task must exist under exactly that name
         let key := if byName then found else name
-        if names.contains key then .ok (set key (.task key) acc) else .error .notFound
+        if names.contains key then .ok (set key (.task key) acc)
+        else if byName then .error .notFound
+        else
+          -- a by-class reference found only a task of ANOTHER name (another group's homonym): that is not the class — the input is
+          -- absent (repair F18; before it, `tasks[input_task_name]` raised a bare KeyError)
+          match i.default with
+          | some d => .ok (set name (.dflt d) acc)
+          | none => .error .missingInput
       | .error _ =>
         match i.default with
         | some d => .ok (set name (.dflt d) acc)
